@@ -218,6 +218,11 @@ Convert(c, a) ==
 MutatePayload == img.kind \in {"rgb", "lin", "xyb", "hsl"} /\ img' = img /\ Record("MutatePayload", [none |-> 0], "ok")
 CloneImage    == img.kind \in Kinds /\ img' = img /\ Record("Clone", [none |-> 0], "ok")
 IntoData      == img.kind \in {"rgb", "lin", "xyb", "hsl"} /\ img' = NoImage /\ Record("IntoData", [none |-> 0], "ok")
+\* Rebuild: the payload goes back to the constructor with the dimensions and labels the object itself reports
+\* (X::new(x.into_data(), x.width(), x.height() [, x.transfer(), x.primaries()]); Yuv::new(Frame of x.data(), x.config())).
+\* The library must accept what it handed out: same kind, same dimensions, same (already resolved) labels - and, checked
+\* by the conformance step, the same samples bit for bit.  A client round-tripping through its own buffers does exactly this.
+Rebuild       == img.kind \in Kinds /\ img' = img /\ Record("Rebuild", [none |-> 0], "ok")
 NoArgs == [none |-> 0]
 ConvertAny ==
   \/ \E c \in {"YuvToRgb", "YuvToLin", "YuvToXyb", "RgbToLin", "RgbToXyb", "LinToXyb", "LinToHsl", "XybToLin", "HslToLin"} : Convert(c, NoArgs)
@@ -229,7 +234,7 @@ Next == /\ ncalls < MaxCalls
         /\ \/ /\ (FreshOnly => img.kind = "none")
               /\ (NewYuv \/ NewRgb \/ NewFloat("lin", "NewLin") \/ NewFloat("xyb", "NewXyb") \/ NewFloat("hsl", "NewHsl"))
            \/ ConvertAny
-           \/ MutatePayload \/ CloneImage \/ IntoData
+           \/ MutatePayload \/ CloneImage \/ IntoData \/ Rebuild
 Spec == Init /\ [][Next]_vars
 
 -------------------------------------------------------------------------------------
